@@ -1,6 +1,10 @@
 //! C09 — strict validation rejects exactly the documents the GraphQL spec calls invalid.
 //!
-//! Case:   (case VSCHEMA DOC OPNAME VARS TEXT)
+//! Case:   (case VSCHEMA DOC OPNAME VARS TEXT)            stream `main`    (static schema, derive macros)
+//!         (case VSCHEMA DOC OPNAME VARS TEXT (flavour dynamic))   stream `dynamic` (the same schema built
+//!            with async_graphql::dynamic, c09/dynschema.rs; VSCHEMA is the dump of THAT registry, the
+//!            request goes through dynamic::Schema::execute / execute_stream, RAN additionally counts
+//!            the invocations the resolver closures logged themselves)
 //!   VSCHEMA  description of the schema read back from the REAL registry (through
 //!            ExtensionContext::schema_env): types, fields, arguments, input objects, directives.
 //!            Two variants of the static schema exist: the plain one, and one that additionally
@@ -29,6 +33,7 @@ use futures_util::stream::{self, Stream};
 include!("../c09/schema.rs");
 include!("../c09/doc.rs");
 include!("../c09/gen.rs");
+include!("../c09/dynschema.rs");
 
 // ------------------------------------------------------------------ observation of the pipeline
 
@@ -98,6 +103,22 @@ fn schema_sexp(with_ifdef: bool) -> Sexp {
     obs.lock().unwrap().dump.take().expect("registry dump")
 }
 
+fn build_dyn(obs: Arc<Mutex<Obs>>) -> dynamic::Schema {
+    dynflavour::build(ObsF(obs))
+}
+
+fn schema_sexp_dyn() -> Sexp {
+    let obs = Arc::new(Mutex::new(Obs { want_dump: true, ..Default::default() }));
+    let schema = build_dyn(obs.clone());
+    let _ = spin_on(schema.execute("{ __typename }"));
+    obs.lock().unwrap().dump.take().expect("registry dump (dynamic)")
+}
+
+/// `(flavour dynamic)` as sixth component of the case
+fn case_is_dynamic(a: &[Sexp]) -> bool {
+    a.len() == 6 && a[5].tag() == Some("flavour") && a[5].args().first().and_then(|x| x.as_atom()) == Some("dynamic")
+}
+
 fn errs_sexp(es: &[(String, usize)]) -> Sexp {
     let mut v: Vec<(String, usize)> = es.to_vec();
     v.sort();
@@ -105,7 +126,38 @@ fn errs_sexp(es: &[(String, usize)]) -> Sexp {
     list(v.into_iter().map(|(m, n)| list(vec![st(m), num(n)])).collect())
 }
 
-fn gen_case(rng: &mut Rng, i: usize, _o: &Opts, dist: &mut Dist) -> Sexp {
+fn gen_case_dynamic(rng: &mut Rng, i: usize, dist: &mut Dist) -> Sexp {
+    thread_local! {
+        static SDD: (Sexp, SchemaD) = { let s = schema_sexp_dyn(); let d = SchemaD::from_sexp(&s); (s, d) };
+    }
+    SDD.with(|sd| {
+        // the same generator, the same 52 mutations; there is one variant only (the dynamic API cannot
+        // register an executable directive, hence no `ifdef` variant)
+        let mut local = Dist::default();
+        let (doc, opname, vars, _) = gen_request(&sd.1, &sd.1, rng, i, &mut local);
+        for (k, n) in &local.0 {
+            if !k.starts_with("gen_schema_") {
+                dist.add(&format!("dyn_{k}"), *n);
+            }
+        }
+        let text = print_doc(&doc);
+        if text.contains("blob(") {
+            dist.hit("dyn_uses_custom_scalar_blob");
+        }
+        if text.contains("@concat") || text.contains("@ifdef") || text.contains("@tagged") {
+            dist.hit("dyn_uses_directive_the_dynamic_api_cannot_register");
+        }
+        node(
+            "case",
+            vec![sd.0.clone(), doc.to_sexp(), opname.map(st).unwrap_or(atom("none")), vars_sexp(&vars), st(text), node("flavour", vec![atom("dynamic")])],
+        )
+    })
+}
+
+fn gen_case(rng: &mut Rng, i: usize, o: &Opts, dist: &mut Dist) -> Sexp {
+    if o.stream == "dynamic" {
+        return gen_case_dynamic(rng, i, dist);
+    }
     thread_local! {
         static SD: [(Sexp, SchemaD); 2] = [false, true].map(|v| { let s = schema_sexp(v); let d = SchemaD::from_sexp(&s); (s, d) });
     }
@@ -123,7 +175,8 @@ fn gen_case(rng: &mut Rng, i: usize, _o: &Opts, dist: &mut Dist) -> Sexp {
 
 fn run(case: &Sexp, dist: &mut Dist) -> Sexp {
     let a = case.args();
-    if a.len() != 5 || a[0].tag() != Some("vschema") {
+    let dynamic_flavour = case_is_dynamic(a);
+    if !(a.len() == 5 || dynamic_flavour) || a[0].tag() != Some("vschema") {
         // the witness of a finding owned by another property and shared through `"also": ["C09"]`
         // comes in that property's case format; it is replayed there, C09 has its own corpus case
         dist.hit("foreign_witness_skipped");
@@ -134,8 +187,14 @@ fn run(case: &Sexp, dist: &mut Dist) -> Sexp {
     let text = a[4].as_str().unwrap();
     let obs = Arc::new(Mutex::new(Obs::default()));
     let with_ifdef = case_has_ifdef(&a[0]);
-    dist.hit(if with_ifdef { "schema_with_ifdef_directive" } else { "schema_plain" });
-    let schema = build(obs.clone(), with_ifdef);
+    let pre = if dynamic_flavour { "dyn_" } else { "" };
+    dist.hit(if dynamic_flavour { "dyn_schema_dynamic" } else if with_ifdef { "schema_with_ifdef_directive" } else { "schema_plain" });
+    enum Either {
+        S(Schema<Query, Mutation, Subscription>),
+        D(dynamic::Schema),
+    }
+    let schema = if dynamic_flavour { Either::D(build_dyn(obs.clone())) } else { Either::S(build(obs.clone(), with_ifdef)) };
+    dynflavour::DYN_RESOLVER_CALLS.store(0, std::sync::atomic::Ordering::SeqCst);
     let mut req = Request::new(text);
     if let Some(n) = &opname {
         req = req.operation_name(n.clone());
@@ -160,7 +219,10 @@ fn run(case: &Sexp, dist: &mut Dist) -> Sexp {
     let errors: Vec<ServerError> = if is_sub {
         use futures_util::StreamExt;
         let mut out = vec![];
-        let s = schema.execute_stream(req);
+        let s: futures_util::stream::BoxStream<'static, Response> = match &schema {
+            Either::S(x) => Box::pin(x.execute_stream(req)),
+            Either::D(x) => x.execute_stream(req),
+        };
         futures_util::pin_mut!(s);
         let mut n = 0;
         while let Some(r) = spin_on(s.next()) {
@@ -172,8 +234,12 @@ fn run(case: &Sexp, dist: &mut Dist) -> Sexp {
         }
         out
     } else {
-        spin_on(schema.execute(req)).errors
+        match &schema {
+            Either::S(x) => spin_on(x.execute(req)).errors,
+            Either::D(x) => spin_on(x.execute(req)).errors,
+        }
     };
+    let logged = dynflavour::DYN_RESOLVER_CALLS.load(std::sync::atomic::Ordering::SeqCst);
     let o = obs.lock().unwrap();
     let (stage, errs) = if let Some(e) = &o.parse_err {
         ("parse", e.clone())
@@ -184,14 +250,17 @@ fn run(case: &Sexp, dist: &mut Dist) -> Sexp {
     } else {
         ("none", errors.iter().map(|e| (e.message.clone(), e.locations.len())).collect())
     };
-    dist.hit(&format!("stage_{stage}"));
+    dist.hit(&format!("{pre}stage_{stage}"));
+    if dynamic_flavour && logged > 0 {
+        dist.hit("dyn_resolver_closures_ran");
+    }
     let mut later: Vec<String> = if stage == "ok" { errors.iter().map(|e| e.message.clone()).collect() } else { vec![] };
     later.sort();
     later.dedup();
     if !later.is_empty() {
-        dist.hit("accepted_then_failed");
+        dist.hit(&format!("{pre}accepted_then_failed"));
     }
-    node("out", vec![atom(stage), errs_sexp(&errs), num(o.ran), node("later", later.into_iter().map(st).collect())])
+    node("out", vec![atom(stage), errs_sexp(&errs), num(o.ran + logged), node("later", later.into_iter().map(st).collect())])
 }
 
 fn main() {
